@@ -376,12 +376,29 @@ def run(ctx):
                wc.loc(later[0][1]) if later else "")
     ws = ctx.fn("worker_pool::WorkerPool::start", "R-C17.4")
     if ws:
-        fa = [b for b, t in ws.calls() if A.cname(t) == "std::sync::atomic::Atomic::<usize>::fetch_add"]
-        ok = False
-        if fa:
-            v = ctx.og(ws).of_operand(ws.term(fa[0])["args"][1])
-            ok = v.k == "param" and v.a[0] == 2
-        ctx.ob("R-C17.4", ws, "counter-raised-by-pool-size", ok, "active_thread_counter += pool_size before spawning" if ok else "the thread counter is not raised by the number of spawned workers")
+        # the counter must equal the number of threads that really run: it is raised by one per spawn ATTEMPT (inside
+        # the per-thread closure, before the spawn) and taken back by one when that spawn fails. A bulk `+= pool_size`
+        # up front leaves the never-attempted threads counted when a spawn fails: the drop of the failed open spins.
+        FADD, FSUB = "std::sync::atomic::Atomic::<usize>::fetch_add", "std::sync::atomic::Atomic::<usize>::fetch_sub"
+        bulk = [b for b, t in ws.calls() if A.cname(t) == FADD]
+        per = [f for fid2, f in F.fns.items() if fid2.startswith(ws.id + "::{closure") and fid2.count("{closure") == 1]
+        ok, detail = False, "no per-thread closure with a spawn found"
+        for c in per:
+            sp = [b for b, t in c.calls() if A.cname(t).endswith("Builder::spawn") or A.cname(t).endswith("thread::spawn")]
+            if not sp:
+                continue
+            og2 = ctx.og(c)
+            add = [b for b, t in c.calls() if A.cname(t) == FADD and any(x.k == "const" and x.a[:2] == ("int", 1) for x in A.walk(og2.of_operand(t["args"][1])))]
+            before = bool(add) and all(A.dominates(c, add[0], b) for b in sp)
+            # the give-back lives in the error adaptor of the spawn result
+            back = [f for fid3, f in F.fns.items() if fid3.startswith(c.id + "::{closure") and
+                    any(A.cname(t) == FSUB and any(x.k == "const" and x.a[:2] == ("int", 1) for x in A.walk(ctx.og(f).of_operand(t["args"][1]))) for _, t in f.calls())]
+            adaptor = any(A.cname(t).endswith(("::inspect_err", "::map_err")) for _, t in c.calls())
+            ok = before and len(add) == 1 and bool(back) and adaptor and not bulk
+            detail = "one count per spawn attempt, before the spawn; given back when that spawn fails; no bulk raise" if ok else \
+                "per-attempt raise before the spawn: %s; given back on a failed spawn: %s; bulk raise in start(): %d — when a spawn fails the counter stays above the number of running threads and DatabaseInner::drop (run by the failing open) waits forever" % (before, bool(back) and adaptor, len(bulk))
+            break
+        ctx.ob("R-C17.4", ws, "counter-counts-exactly-the-threads-that-run", ok, detail)
 
     # ---- R-C17.4 (cont.) what drop calls to break the cycles actually empties the containers that hold keyspace handles
     jmc = ctx.fn("journal::manager::JournalManager::clear", "R-C17.4")
